@@ -277,7 +277,9 @@ FILTER_SHAPES = [
 
 GENERATORS = ["retain_lines", "retain-lines", "dense", "readable", obj(name="retain_lines"), obj(name="retain-lines"),
               obj(name="dense"), obj(name="readable"), obj(name="dense", column_span=120), obj(column_span=40, name="readable"),
-              obj(name="dense", column_span=0), obj(name="readable", column_span=80)]
+              obj(name="dense", column_span=0), obj(name="readable", column_span=80),
+              obj(name="dense", column_span=79), obj(name="dense", column_span=81), obj(name="readable", column_span=81),
+              obj(name="readable", column_span=79)]
 
 SRC_MAP = obj(("@pkg", "./src/pkgdir"), ("@other", "src/rcdir"))
 BUNDLES = [None, obj(require_mode="path"), obj(require_mode="luau"), obj(require_mode=obj(name="path")),
@@ -294,6 +296,15 @@ BUNDLES = [None, obj(require_mode="path"), obj(require_mode="luau"), obj(require
            obj(require_mode=obj(name="luau", aliases=obj(pkg="./src/pkgdir", other="src/rcdir"))),
            obj(require_mode=obj(name="luau", sources=obj(pkg="./src/pkgdir"))),
            obj(require_mode=obj(aliases=obj(pkg="./src/pkgdir"), name="luau", use_luau_configuration=False)),
+           # near-default values: another letter case, surrounding space, trailing slash / dot
+           obj(require_mode=obj(name="path", module_folder_name="Init")),
+           obj(require_mode=obj(name="path", module_folder_name="INIT")),
+           obj(require_mode=obj(name="path", module_folder_name=" init")),
+           obj(require_mode=obj(name="path", module_folder_name="init ")),
+           obj(require_mode=obj(name="path", module_folder_name="init/")),
+           obj(require_mode=obj(name="path", module_folder_name="init.")),
+           obj(require_mode="path", modules_identifier="__darklua_bundle_modules"),
+           obj(require_mode="path", modules_identifier="__DARKLUA_BUNDLE_MODULES "),
            obj(require_mode="path", modules_identifier="__MODS"),
            obj(require_mode="path", modules_identifier=None),
            obj(require_mode="path", modules_identifier="__DARKLUA_BUNDLE_MODULES"),
@@ -623,6 +634,17 @@ def build_cases(ctx, names, tmpfile):
         (obj(rules=[obj(rule="rename_variables", globals=["not valid"])]), "reject", "invalid identifier in globals"),
         (obj(rules=[obj(rule="rename_variables", globals=["$other"])]), "reject", "unknown $group in globals"),
         (obj(rules=[obj(rule="append_text_comment", text="x", location="middle")]), "reject", "invalid enum value"),
+        (obj(rules=[obj(rule="append_text_comment", text="x", location="Start")]), "reject", "enum value in another letter case"),
+        (obj(rules=[obj(rule="append_text_comment", text="x", location="start ")]), "reject", "enum value with a space"),
+        (obj(rules=[obj(rule="append_text_comment", text="x", location="END")]), "reject", "enum value in another letter case"),
+        (obj(rules=[obj(rule="remove_interpolated_string", strategy="String")]), "reject", "enum value in another letter case"),
+        (obj(rules=[obj(rule="remove_interpolated_string", strategy=" tostring")]), "reject", "enum value with a space"),
+        (obj(rules=[obj(rule="rename_variables", globals=["$Default"])]), "reject", "group name in another letter case"),
+        (obj(generator="Retain_lines"), "reject", "generator name in another letter case"),
+        (obj(generator="dense "), "reject", "generator name with a space"),
+        (obj(generator=obj(name="Readable")), "reject", "generator name in another letter case"),
+        (obj(bundle=obj(require_mode="Path")), "reject", "require mode name in another letter case"),
+        (obj(bundle=obj(require_mode=obj(name="PATH"))), "reject", "require mode name in another letter case"),
         (obj(rules=[obj(rule="remove_interpolated_string", strategy="format")]), "reject", "invalid enum value"),
         (obj(rules=[obj(rule="convert_require", current="path", target="rblox")]), "reject", "invalid require mode name"),
         (obj(rules=[obj(rule="convert_require", current=obj(name="path", oops=1), target="path")]), "reject", "unknown key in require mode"),
@@ -1079,6 +1101,8 @@ def bundle_tree():
     return {
         "src/main.luau": "local a = require(\"./folder\")\nlocal c = require(\"@pkg/mod\")\nreturn { a, c }\n",
         "src/folder/init.luau": "return \"init\"\n", "src/folder/index.luau": "return \"index\"\n",
+        "src/folder/Init.luau": "return \"Init (capital)\"\n", "src/folder/INIT.luau": "return \"INIT (upper)\"\n",
+        "src/folder/init .luau": "return \"init with a space\"\n", "src/folder/ init.luau": "return \"space init\"\n",
         "src/pkgdir/mod.luau": "return \"pkgdir\"\n", "src/rcdir/mod.luau": "return \"rcdir\"\n",
         ".luaurc": "{\"aliases\": {\"pkg\": \"./src/rcdir\"}}",
     }
@@ -1287,10 +1311,31 @@ def run(ctx):
                              "the round-tripped configuration bundles the probe project differently",
                              {"kind": c.kind, "text": c.text, "serialized": c.res["ser"], "errors": [b0[1], b1[1]],
                               "outputs": [dict(b0[2]).get("out/main.luau"), dict(b1[2]).get("out/main.luau")]}))
+    from .c20 import glob_regex
+    def spec_selection(cfg_text):
+        """files the filters of a matrix configuration select, by the python reading of the globs (no darklua involved)"""
+        cfg = loads(cfg_text)
+        d = dict(cfg)
+        rule = d["rules"][0]
+        rd = dict(rule) if isinstance(rule, O) else {}
+        def ok(flt, f):
+            ap, sk = as_list(flt.get("apply_to_files")), as_list(flt.get("skip_files"))
+            if ap and not any(glob_regex(p).fullmatch(f) for p in ap):
+                return False
+            return not any(glob_regex(p).fullmatch(f) for p in sk)
+        return frozenset(f for f in MATRIX_FILES if ok(d, f) and ok(rd, f))
     for k, (base_text, dropped_text, key, idx) in enumerate(drops):
+        if spec_selection(base_text) == spec_selection(dropped_text):
+            # the design of the matrix itself is wrong: cannot be the fault of the code under test
+            raise C.CheckBroken("matrix design: by the glob reading, pattern %d of %s in %s does not matter" % (idx, key, base_text))
         if beh[(("drop", k), "base")] == beh[(("drop", k), "dropped")] or not beh[(("drop", k), "base")][0]:
-            raise C.CheckBroken("the matrix tree does not distinguish pattern %d of %s in %s (removing it changes nothing)"
-                                % (idx, key, base_text))
+            where = "top-level" if "apply_to_files" in dict(loads(base_text)) or "skip_files" in dict(loads(base_text)) else "rule"
+            findings.append(("matrix:pattern-does-not-matter:%s:%s" % (where, key),
+                             "removing one pattern of a filter does not change the selection although the glob model says it must "
+                             "(pattern %d of %s)" % (idx, key),
+                             {"kind": "config", "text": base_text, "without_the_pattern": dropped_text,
+                              "selected_by_glob_reading": [sorted(spec_selection(base_text)), sorted(spec_selection(dropped_text))],
+                              "tree": "vlib/c19.py matrix_tree()", "run_ok": beh[(("drop", k), "base")][0]}))
     by_ser = {}
     compared = 0
     for c in cfg_cases + rule_level:
